@@ -188,7 +188,10 @@ def _wrap_scalar_fn(f, x):
         return numpy.nan
     with warnings.catch_warnings():
         warnings.simplefilter("ignore")
-        return f(x)
+        res = f(x)
+    if isinstance(res, int) and (not isinstance(res, bool)) and (abs(res) >= 2**63):
+        res = float(res)  # SQLite integers are 64 bit (floor / ceil of a huge float)
+    return res
 
 
 def _wrap_scalar_fn2(f, x, y):
